@@ -10,14 +10,17 @@ def plan(tier):
     T = 300 if q else 1800
     if q:
         # quick: every alg with one enc per class, every enc with one alg per mode
-        pairs = sorted(set([(a, (0, 3, 1, 4, 2, 5, 6, 7)[a % 8]) for a in range(21)] + [((3, 6, 7, 8, 1, 11, 14, 17)[e], e) for e in range(8)]))
+        pairs = sorted(set([(a, (0, 3, 1, 4, 2, 5, 6, 7)[a % 8]) for a in range(21)] + [((3, 6, 7, 8, 1, 11, 14, 17)[e], e) for e in range(8)]
+                           + [(18, 6), (20, 7)]))      # ECDH-1PU key wrapping with the ChaCha20 encs: must be refused
         two = [(a,) for a in (3, 6, 7, 8, 18)]
         single = [(a,) for a in (1, 3, 8, 11)]
+        shared = [(a,) for a in (1, 3, 8, 11, 14)]
     else:
         pairs = [(a, e) for a in range(21) for e in range(8)]
         two = [(a,) for a in range(21)]
         single = [(a,) for a in range(17)]
-    specs = [("roundtrip_layout", pairs), ("roundtrip_options", pairs), ("two_recipients", two), ("single_key_mixed", single)]
+        shared = [(a,) for a in range(17)]
+    specs = [("roundtrip_layout", pairs), ("roundtrip_options", pairs), ("two_recipients", two), ("single_key_mixed", single), ("shared_alg_recipients", shared)]
     path, names = gen.specialise(BASE, specs, "c04_gen.py")
     conds = [Cond(path, n, "main", T, n) for n in names]
     conds.append(Cond(BASE, "witness", "witness", 300))
